@@ -21,6 +21,7 @@ import (
 	"encoding/binary"
 	"io"
 	"os"
+	"sort"
 	"strings"
 	"time"
 
@@ -64,6 +65,9 @@ func verif_assert(b bool) {
 }
 
 func verif_assume(b bool) {}
+
+// verif_rangeidx stands for the number of completed iterations of the enclosing range loop (contracts only).
+func verif_rangeidx() int { return 0 }
 
 // ---- abstract view of an on-heap table index
 
@@ -168,6 +172,13 @@ var verif_ghost struct {
 	// blobstore-backed manifest (conditional write)
 	crcChecked bool // NewCompressedChunk accepted the bytes (its CRC matched)
 
+	// grace-period prune
+	pLockHeld       bool // the manifest lock handed out by lockKeepers is held
+	pMtimeUnchanged bool // manifestMtimeChanged reported "unchanged" under that lock
+	pKeepHas        bool // result of the most recent keep.Has(addr)
+	pLockedExists   bool // LockManifest found a manifest
+	pKeepFromLocked bool // the keep set includes the specs of the manifest read under the lock
+
 	bPutOK    bool      // CheckAndPutManifest returned nil
 	bReadLock hash.Hash // lock of the contents most recently read from the blobstore
 }
@@ -221,3 +232,39 @@ func verif_x_ReadSeeker_Seek(rd io.ReadSeeker, offset int64, whence int) (n int6
 }
 
 func verif_x_hash_MaybeParse(s string) (h hash.Hash, ok bool) { return hash.MaybeParse(s) }
+
+// ---- table writer: the records collected by addChunk (prefix, insertion order, size)
+
+// verif_order_pos is an uninterpreted witness: the position of the record whose order is |o| (contracts only).
+func verif_order_pos(ps prefixIndexSlice, o uint32) int { return 0 }
+
+// verif_orders_ok: every record's order is a valid chunk ordinal and the orders are pairwise distinct, stated
+// through a left inverse (order -> position) so that one instantiation per record suffices. addChunk numbers
+// records by insertion position; sort.Sort only permutes them.
+func verif_orders_ok(ps prefixIndexSlice) bool {
+	return verif_forall(0, len(ps), func(a int) bool {
+		return int(ps[a].order) < len(ps) && verif_order_pos(ps, ps[a].order) == a
+	})
+}
+
+func verif_x_sort_Sort(data sort.Interface) { sort.Sort(data) }
+
+func verif_x_Writer_Write(w io.Writer, p []byte) (n int, err error) { return w.Write(p) }
+
+func verif_x_be_PutUint32(bo binary.ByteOrder, b []byte, v uint32) { bo.PutUint32(b, v) }
+
+func verif_x_be_PutUint64(bo binary.ByteOrder, b []byte, v uint64) { bo.PutUint64(b, v) }
+
+func verif_x_lockKeepers(ctx context.Context) (keep hash.HashSet, release func() error, err error) {
+	return nil, nil, nil
+}
+
+func verif_x_release() (err error) { return nil }
+
+func verif_x_HashSet_Has(hs hash.HashSet, h hash.Hash) (has bool) { return hs.Has(h) }
+
+func verif_x_file_Remove(name string) (err error) { return nil }
+
+func verif_x_LockManifest(l manifestLocker, ctx context.Context) (lm lockedManifest, err error) {
+	return l.LockManifest(ctx)
+}
